@@ -35,11 +35,11 @@ TGT_TOL = 1e-4                   # targets are drawn from float32 keypoints that
 
 
 # ------------------------------------------------------------------------------------------ configuration
-def data_config(is_rgb, max_hw, scale, crop_hw=None):
+def data_config(is_rgb, max_hw, scale, crop_hw=None, user_only=True):
     from omegaconf import OmegaConf
 
     return OmegaConf.create(dict(
-        user_instances_only=True,
+        user_instances_only=bool(user_only),
         preprocessing=dict(is_rgb=bool(is_rgb), max_height=max_hw[0], max_width=max_hw[1], scale=float(scale),
                            crop_hw=list(crop_hw) if crop_hw else None),
         use_augmentations_train=False, augmentation_config=None))
@@ -132,7 +132,7 @@ def litdata_substituted():
 def _dataset(model, labels, c, np_chunks, path):
     from sleap_nn.data import custom_datasets as cd
 
-    dc = data_config(c["is_rgb"], c["max_hw"], c["scale"], c.get("crop_hw"))
+    dc = data_config(c["is_rgb"], c["max_hw"], c["scale"], c.get("crop_hw"), c.get("user_only", True))
     common = dict(labels=labels, data_config=dc, max_stride=c["max_stride"], scale=c["scale"], apply_aug=False,
                   max_hw=tuple(c["max_hw"]), np_chunks=np_chunks, np_chunks_path=path)
     conf = head_config(c["sigma"], c["output_stride"], c.get("anchor"))
@@ -170,12 +170,16 @@ def make_chunks(model, labels, c):
     from sleap_nn.data import get_data_chunks as gc
     from sleap_nn.data.providers import get_max_instances
 
-    dc = data_config(c["is_rgb"], c["max_hw"], c["scale"], c.get("crop_hw"))
+    uo = bool(c.get("user_only", True))
+    dc = data_config(c["is_rgb"], c["max_hw"], c["scale"], c.get("crop_hw"), uo)
     max_instances = get_max_instances(labels)
     items = []
-    for lf in labels:
-        x = (lf, labels.videos.index(lf.video))
-        kw = dict(data_config=dc, user_instances_only=True, max_hw=tuple(c["max_hw"]), scale=c["scale"])
+    # the list of inputs training/get_bin_files.py hands to litdata.optimize(): every labelled frame - or, when the
+    # tree provides it (fixes/C18_chunk_inputs_skip_frames_without_instances.diff), get_data_chunks.get_chunk_inputs
+    inputs = (gc.get_chunk_inputs(labels, uo) if hasattr(gc, "get_chunk_inputs")
+              else [(lf, labels.videos.index(lf.video)) for lf in labels])
+    for x in inputs:
+        kw = dict(data_config=dc, user_instances_only=uo, max_hw=tuple(c["max_hw"]), scale=c["scale"])
         if model == "single_instance":
             items.append(gc.single_instance_data_chunks(x, **kw))
         elif model == "centroid":
